@@ -35,6 +35,20 @@ struct TrailingAlignmentResult
     std::size_t trailing_alignment;
 };
 
+// Worst-case number of bytes needed to reach the next multiple of `next_alignment` from an address that is only
+// known as `offset` bytes into a block aligned to `alignment_bracket`.
+template <bool NeedsAlignment, std::size_t NextAlignment>
+constexpr std::size_t trailing_padding(std::size_t offset, std::size_t alignment_bracket) noexcept
+{
+    if (alignment_bracket < NextAlignment)
+    {
+        const auto known_alignment =
+            offset == 0 ? alignment_bracket : detail::trailing_alignment(offset, alignment_bracket);
+        return known_alignment < NextAlignment ? NextAlignment - known_alignment : 0;
+    }
+    return detail::align_if<NeedsAlignment, NextAlignment>(offset) - offset;
+}
+
 template <class T>
 struct VaryingSizeAddresses
 {
@@ -114,8 +128,10 @@ struct ParameterTraits<cntgs::AlignAs<T, Alignment>>
             size = alignment_offset - offset + VALUE_BYTES;
             new_offset = offset + size;
         }
-        const auto padding_offset = detail::align_if<(TRAILING_ALIGNMENT < NextAlignment), NextAlignment>(new_offset);
-        return {new_offset, size, padding_offset - new_offset, (std::max)(alignment, ALIGNMENT)};
+        const auto new_alignment = (std::max)(alignment, ALIGNMENT);
+        const auto padding =
+            detail::trailing_padding<(TRAILING_ALIGNMENT < NextAlignment), NextAlignment>(new_offset, new_alignment);
+        return {new_offset, size, padding, new_alignment};
     }
 
     static auto data_begin(ConstReferenceType reference) noexcept
@@ -411,8 +427,10 @@ struct ParameterTraits<cntgs::FixedSize<cntgs::AlignAs<T, Alignment>>> : BaseCon
             size = alignment_offset - offset + value_size;
             new_offset = offset + size;
         }
-        const auto padding_offset = detail::align_if<(TRAILING_ALIGNMENT < NextAlignment), NextAlignment>(new_offset);
-        return {new_offset, size, padding_offset - new_offset, (std::max)(alignment, ALIGNMENT)};
+        const auto new_alignment = (std::max)(alignment, ALIGNMENT);
+        const auto padding =
+            detail::trailing_padding<(TRAILING_ALIGNMENT < NextAlignment), NextAlignment>(new_offset, new_alignment);
+        return {new_offset, size, padding, new_alignment};
     }
 
     static void copy(const cntgs::Span<std::add_const_t<T>>& source,
